@@ -127,7 +127,7 @@ func checkRedeemOrder(c *Ctx, rule, role string, fn *ssa.Function, ex *Explorati
 				}
 			} else if rawCode != nil {
 				k := inv.Arg(1)
-				if !(k.Op == "call" && len(k.Args) > 0 && k.Args[len(k.Args)-1].Key() == rawCode.Key()) {
+				if r, ok := sigRaw(k); !ok || r.Key() != rawCode.Key() {
 					okKey, wKey = false, p
 					whyKey = fmt.Sprintf("invalidate key %s is not the signature of the presented credential %s", k.Pretty(), rawCode.Pretty())
 				}
@@ -241,44 +241,7 @@ func c01R3(c *Ctx) {
 		{"refresh-validate", ".GetRefreshTokenSession", c.Calling(c.ValidateFns(), ".GetRefreshTokenSession")},
 	}
 	for _, r := range roles {
-		if len(r.fns) == 0 {
-			c.RoleUnmatched(rule, r.role, "validate-phase function calling "+r.lookup)
-			continue
-		}
-		for _, fn := range r.fns {
-			ex := c.Explore(fn, handlerCfg(), "handler")
-			if !c.complete(ex, rule, r.role, fn) {
-				continue
-			}
-			req := reqParam(fn)
-			ok := true
-			var w *Path
-			n := 0
-			for _, p := range ex.Paths {
-				if !p.Success() || p.Kind != "return" {
-					continue
-				}
-				lk := p.First(r.lookup)
-				if lk == nil {
-					continue
-				}
-				n++
-				found := false
-				for _, e := range p.Calls(".SetID") {
-					if e.Recv != nil && e.Recv.Key() == req.Key() && e.Arg(0).Key() == getID(lk.Ret(0)).Key() {
-						found = true
-					}
-				}
-				if !found {
-					ok, w = false, p
-				}
-			}
-			if n == 0 {
-				c.Bad(rule, r.role, fn, "setid", "success paths through the lookup exist", "no success path after the lookup", nil)
-				continue
-			}
-			c.Check(ok, rule, r.role, fn, "setid", "on every success path the request id is set to GetID of the stored request (tokens are indexed under the grant's id)", "a success path does not execute request.SetID(stored.GetID())", w)
-		}
+		checkSetID(c, rule, r.role, r.lookup, r.fns)
 	}
 	// refresh-issue: the persisted requester carries GetID(request)
 	fns := c.Calling(c.IssueFns(), ".RotateRefreshToken")
@@ -323,8 +286,10 @@ func carriesIDOf(p *Path, at *Event, stored, req *Term) bool {
 	return okv
 }
 
-func c01R4(c *Ctx) {
-	const rule, role = "C01.R4", "code-validate"
+func c01R4(c *Ctx) { codeValidateReadOnly(c, "C01.R4") }
+
+func codeValidateReadOnly(c *Ctx, rule string) {
+	const role = "code-validate"
 	for _, fn := range c.codeValidateFns() {
 		ex := c.Explore(fn, handlerCfg(), "handler")
 		if !c.complete(ex, rule, role, fn) {
@@ -600,4 +565,46 @@ func checkInactiveLookup(c *Ctx, rule string, fn *ssa.Function, ex *Exploration,
 		why = "no path returns " + errName
 	}
 	c.Check(ok, rule, "store", fn, "lookup-reports-inactive", "the lookup returns the stored request together with "+errName+" exactly when the record is inactive", why, nil)
+}
+
+// checkSetID: on every success path through the lookup, request.SetID(GetID(stored)) ran.
+func checkSetID(c *Ctx, rule, role, lookup string, fns []*ssa.Function) {
+	if len(fns) == 0 {
+		c.RoleUnmatched(rule, role, "validate-phase function calling "+lookup)
+		return
+	}
+	for _, fn := range fns {
+		ex := c.Explore(fn, handlerCfg(), "handler")
+		if !c.complete(ex, rule, role, fn) {
+			continue
+		}
+		req := reqParam(fn)
+		ok := true
+		var w *Path
+		n := 0
+		for _, p := range ex.Paths {
+			if !p.Success() || p.Kind != "return" {
+				continue
+			}
+			lk := p.First(lookup)
+			if lk == nil {
+				continue
+			}
+			n++
+			found := false
+			for _, e := range p.Calls(".SetID") {
+				if e.Recv != nil && e.Recv.Key() == req.Key() && e.Arg(0).Key() == getID(lk.Ret(0)).Key() {
+					found = true
+				}
+			}
+			if !found {
+				ok, w = false, p
+			}
+		}
+		if n == 0 {
+			c.Bad(rule, role, fn, "setid", "success paths through the lookup exist", "no success path after the lookup", nil)
+			continue
+		}
+		c.Check(ok, rule, role, fn, "setid", "on every success path the request id is set to GetID of the stored request (tokens are indexed under the grant's id)", "a success path does not execute request.SetID(stored.GetID())", w)
+	}
 }
